@@ -424,13 +424,10 @@ func getMatchedTable(fromExpr sqlparser.TableExprs, colName *sqlparser.ColName, 
 		return tableName, nil
 	}
 
+	// a column the config of the table names: in `columns` or as an encrypted column (a config without
+	// `columns` never matched: `SELECT col FROM t` lost the setting of its encrypted column)
 	isTableColumn := func(tableSchema config.TableSchema, colName *sqlparser.ColName) bool {
-		for _, column := range tableSchema.Columns() {
-			if column == colName.Name.ValueForConfig() {
-				return true
-			}
-		}
-		return false
+		return schemaKnowsColumn(tableSchema, colName.Name.ValueForConfig())
 	}
 
 	var alisedName string
